@@ -131,15 +131,21 @@ Definition obs_outcome (o : obs) : option outcome :=
 Definition obs_is (o : obs) (x : outcome) : bool :=
   match obs_outcome o with Some y => outcome_eqb x y | None => false end.
 
+(* per case: one host, exercised by a plain http request, a CONNECT (+ inner request), an https request in
+   absolute form, and (configurations with MITM) a request inside the MITM'd tunnel *)
 Record ecase := { ec_cfg : cfgd; ec_rules : list rule;
-                  ec_plain : option (target * obs); ec_connect : option (target * obs) }.
+                  ec_plain : option (target * obs); ec_connect : option (target * obs);
+                  ec_tls : option (target * obs); ec_mitm : option (target * obs) }.
 Definition part_ok (f : config -> list rule -> target -> outcome) (c : ecase) (p : option (target * obs)) : bool :=
   match p with Some (t, o) => obs_is o (f (cfg_of (ec_cfg c)) (ec_rules c) t) | None => true end.
-Definition ecase_model_ok (c : ecase) : bool := part_ok route c (ec_plain c) && part_ok route c (ec_connect c).
+Definition ecase_model_ok (c : ecase) : bool :=
+  part_ok route c (ec_plain c) && part_ok route c (ec_connect c) &&
+  part_ok route c (ec_tls c) && part_ok route c (ec_mitm c).
 (* the property: each request reaches exactly the party the short spec names (or fails when it says so),
    and the plain request and the CONNECT for the same host agree on the first hop *)
 Definition ecase_prop_ok (c : ecase) : bool :=
   part_ok spec_route c (ec_plain c) && part_ok spec_route c (ec_connect c) &&
+  part_ok spec_route c (ec_tls c) && part_ok spec_route c (ec_mitm c) &&
   match ec_plain c, ec_connect c with
   | Some (tp, op), Some (tc, oc) =>
       if str_eqb (t_scheme tp) (b "http") && str_eqb (spec_target_addr tp) (spec_target_addr tc) then
